@@ -73,14 +73,21 @@ impl S {
                 for o in opts {
                     match o {
                         AlterOpt::AddColumn(c, ine) => {
-                            if *ine {
-                                al.add_column_if_not_exists(c.column_def());
-                            } else {
-                                al.add_column(c.column_def());
-                            }
+                            let mut cd = c.column_def();
+                            match (*ine, crate::apply::route(2)) {
+                                (true, 0) => al.add_column_if_not_exists(&mut cd),
+                                (true, _) => al.add_column_if_not_exists(cd),
+                                (false, 0) => al.add_column(&mut cd),
+                                (false, _) => al.add_column(cd),
+                            };
                         }
                         AlterOpt::ModifyColumn(c) => {
-                            al.modify_column(c.column_def());
+                            let mut cd = c.column_def();
+                            if crate::apply::route(2) == 0 {
+                                al.modify_column(&mut cd);
+                            } else {
+                                al.modify_column(cd);
+                            }
                         }
                         AlterOpt::ModifyNoType(c) => {
                             al.modify_column(c.column_def_opt(false));
